@@ -14,6 +14,7 @@ import (
 	"github.com/mimiro-io/datahub/internal/server"
 	ds "github.com/mimiro-io/datahub/internal/service/dataset"
 	"github.com/mimiro-io/datahub/internal/service/types"
+	"github.com/labstack/echo/v4"
 	"github.com/mimiro-io/datahub/internal/web"
 	"net/http/httptest"
 	"net/url"
@@ -130,8 +131,23 @@ func ldDiff(ents []server.VerifEnt, tok string, body []byte) string {
 	return ""
 }
 
-func httpDoAccept(store *server.Store, dsm *server.DsManager, method, path string, body []byte, accept string) (int, []byte) {
+// one set of handlers per opened store, as in the hub (handler-level state such as pools and caches lives as long as the store)
+var echoFor = map[*server.Store]*echo.Echo{}
+
+func theEcho(store *server.Store, dsm *server.DsManager) *echo.Echo {
+	if e, ok := echoFor[store]; ok {
+		return e
+	}
+	if len(echoFor) > 8 {
+		echoFor = map[*server.Store]*echo.Echo{}
+	}
 	e := web.VerifStoreEcho(store, dsm)
+	echoFor[store] = e
+	return e
+}
+
+func httpDoAccept(store *server.Store, dsm *server.DsManager, method, path string, body []byte, accept string) (int, []byte) {
+	e := theEcho(store, dsm)
 	req := httptest.NewRequest(method, path, bytes.NewReader(body))
 	if accept != "" {
 		req.Header.Set("Accept", accept)
@@ -144,8 +160,11 @@ func httpDoAccept(store *server.Store, dsm *server.DsManager, method, path strin
 
 // POST /datasets/<ds>/entities : the handler cuts the stream into StoreEntities batches of 10
 func hBatch(store *server.Store, dsm *server.DsManager, op server.VerifOp, tokens map[string]int64) (oo server.VerifOpObs) {
-	oo.Lens = server.VerifLens(store, op.Ents)
-	payload := server.VerifPayload(op.Ents)
+	var payload []byte
+	server.VerifWithDefaultNS(op.Ctx, func() {
+		oo.Lens = server.VerifLens(store, op.Ents)
+		payload = server.VerifPayload(op.Ents)
+	})
 	if op.Reject {
 		// an entity without an id at the very end: the last (partial) batch must be refused and the request must not answer 200
 		payload = append(payload[:len(payload)-1], []byte(`,{"props":{},"refs":{}}]`)...)
@@ -291,7 +310,7 @@ func hEntities(store *server.Store, dsm *server.DsManager, op server.VerifOp, to
 }
 
 func httpDoCT(store *server.Store, dsm *server.DsManager, path, ctype string, body []byte) (int, []byte) {
-	e := web.VerifStoreEcho(store, dsm)
+	e := theEcho(store, dsm)
 	req := httptest.NewRequest("POST", path, bytes.NewReader(body))
 	req.Header.Set("Content-Type", ctype)
 	rec := httptest.NewRecorder()
